@@ -1661,9 +1661,10 @@ class Pipeline:
         else:
             funcs = [self.output_to_func[output_name] for output_name in output_names]
 
+        # Construct first: if the functions cannot be nested, the pipeline stays as it is
+        nested_func = NestedPipeFunc(funcs, output_name=new_output_name)
         for f in funcs:
             self.drop(f=f)
-        nested_func = NestedPipeFunc(funcs, output_name=new_output_name)
         self.add(nested_func)
         return nested_func
 
